@@ -260,7 +260,9 @@ def parseAddresses (family : Nat) (t : BTok) (h : Header) : Except Stop (Header 
   else if family = afUnix then
     match t.skip unixAddrLen with
     | .error e => .error (liftB e)
-    | .ok t1 => .ok (h, t1)
+    | .ok t1 =>
+      -- the pinned tree leaves the header untouched; `Gen.unixIgnoresAddresses` follows a tree that marks it address-less
+      .ok (if unixIgnoresAddresses then { h with ignoreAddresses := true } else h, t1)
   else .error (.reject .unreachable)
 
 /-- `ParseTLVs(tok, header)`: `while (!tok.atEnd()) { type = uint8; tlvs.emplace_back(type, pstring16) }`.
